@@ -414,6 +414,16 @@ def last_occurrence_rules(ctx, rule):
             inner = [cfg.inner_header(g) for g in gets]
             ok = len(v.co) == 1 and v.c == 1 and hdr is not None and all(not cfg.path_exists(bi, g, avoid=[hdr]) for g in gets) \
                 and cfg.inner_header(bi) == hdr and all(h is not None and h != hdr for h in inner)
+            if ok:
+                # unconditional within the outer iteration: from the first block of the iteration body every path back to the
+                # outer header passes the insert
+                body_starts = [x for x in cfg.succ[hdr] if cfg.in_natural_loop(x, hdr)]
+                for bs in body_starts:
+                    nxt = [y for y in cfg.reachable_from(bs, avoid=[hdr]) if True]
+                    # a path bs -> hdr avoiding the insert block?
+                    if cfg.path_exists(bs, hdr, avoid=[bi]) and bs != bi:
+                        # the path through the `None` arm leaves the loop and never returns to hdr; only count real back paths
+                        ok = False
         if ok:
             ctx.ok(rule, key, where(dist, writes[0][0], writes[0][1]), "after the inner loop of each outer iteration the map entry of the current "
                    "character is overwritten with i1 + 1 (last occurrence)", nontrivial=True)
